@@ -78,6 +78,10 @@ class Peer:
         # raw_secrets: auth_pw / priv_pw ARE the key material of the given type (a master or localized key of the
         # digest's size), not a password the material is derived from: two keys can then share their octets
         self.raw_secrets = raw_secrets
+        if raw_secrets and kind == "v3" and auth:
+            # user.py aligns master / localized keys to the digest's key size: shorter ones are filled with zero octets
+            # BEHIND the key, longer ones cut (documented in user.py); the agent holds the aligned key
+            self._aligned = True
         self.kind = kind
         self.community = community
         self.discover = discover
@@ -88,6 +92,14 @@ class Peer:
                                          priv_alg=priv,
                                          priv_password=priv_pw if raw_secrets else self._secret(auth, priv_pw, priv_kt, engine_id, priv),
                                          auth_key_type=auth_kt, priv_key_type=priv_kt)
+            if getattr(self, "_aligned", False):
+                # (the client is handed the key as typed — possibly short —, the agent works with the aligned one)
+                ks = 16 if auth == 1 else 20
+                st_ = self.state
+                if auth_kt in ("master", "localized"):
+                    st_.auth_key = usm.local_key(st_.auth_alg, bytes(auth_pw).ljust(ks, b"\x00")[:ks], engine_id, auth_kt)
+                if priv and priv_kt in ("master", "localized"):
+                    st_.priv_key = usm.priv_key(st_.auth_alg, bytes(priv_pw).ljust(ks, b"\x00")[:ks], engine_id, priv_kt)
             if discover:
                 # what the client can do before it knows the engine id: keys localized to the empty engine id
                 st = self.state
